@@ -579,6 +579,7 @@ func (m *Model) ruleCAS(r *Results) {
 
 				// build the cut: pass edges and exempt edges
 				c := newCut()
+				c0 := newCut() // the same decisions under the assumption "expected CAS == 0 was supplied"
 				var sinks, problems []string
 				for _, d := range m.decisions(K, fr) {
 					cd := d.C
@@ -588,6 +589,7 @@ func (m *Model) ruleCAS(r *Results) {
 						if rv, _ := m.resolve(cd.X, fr); rv != nil {
 							if cst, ok := stripConv(rv).(*ssa.Const); ok && cst.Value != nil && cst.Value.Kind() == constant.Bool {
 								d.cutSucc(c, cd.succWhen(!constant.BoolVal(cst.Value)))
+								d.cutSucc(c0, cd.succWhen(!constant.BoolVal(cst.Value)))
 								continue
 							}
 						}
@@ -604,6 +606,7 @@ func (m *Model) ruleCAS(r *Results) {
 						}
 						if _, isPtr := other.Type().Underlying().(*types.Pointer); isPtr {
 							d.cutEqual(c)
+							d.cutEqual(c0)
 						}
 						// helper predicate result == nil
 						if call, ok := stripConv(other).(*ssa.Call); ok {
@@ -622,6 +625,7 @@ func (m *Model) ruleCAS(r *Results) {
 								}
 								if exOK && expIsP {
 									d.cutEqual(c)
+									d.cutEqual(c0)
 									sinks = append(sinks, "predicate helper "+call.Common().StaticCallee().Name())
 								} else if expIsP {
 									problems = append(problems, why)
@@ -638,6 +642,7 @@ func (m *Model) ruleCAS(r *Results) {
 						}
 						if isP(other) {
 							d.cutEqual(c)
+							d.cutNotEqual(c0)
 							continue
 						}
 						ro, _ := m.resolve(other, fr)
@@ -659,6 +664,7 @@ func (m *Model) ruleCAS(r *Results) {
 					if otherSide != nil {
 						if ok, why := m.casScanCell(otherSide, K); ok {
 							d.cutEqual(c)
+							d.cutEqual(c0)
 							sinks = append(sinks, "comparison with the row's cas")
 						} else {
 							problems = append(problems, why)
@@ -671,6 +677,13 @@ func (m *Model) ruleCAS(r *Results) {
 					guardedBySQL, problems = m.sqlCasGuard(wp.site, K, c, isP, problems)
 					if guardedBySQL {
 						sinks = append(sinks, "WHERE cas = <expected>")
+					}
+				}
+				// an expected CAS of 0 means "no such (live) document": a statement that can run when 0 was
+				// supplied must not be able to overwrite a live row
+				if wp.site.Fn == K {
+					if shapes := m.sqlZeroCasUnguarded(wp.site, K, c0, isP); len(shapes) > 0 {
+						r.bad(rule, key+" / expected CAS 0", pos, "when the caller supplies the expected CAS 0 (\"the document must not exist\") the statement %s can run: it has neither a conjunct cas = <expected> nor a guard admitting only rows without a body, so it modifies a live document instead of failing with a CAS mismatch", strings.Join(shapes, " | "))
 					}
 				}
 				reachWrite := entryReach(K, c)[wp.instr.Block().Index]
@@ -1778,4 +1791,75 @@ func (m *Model) isDocWriter(f *ssa.Function) bool {
 	}
 	reach := m.reachableLocal(f)
 	return m.A.Allocator != nil && reach[m.A.Allocator] || m.A.WithMetaFn != nil && reach[m.A.WithMetaFn]
+}
+
+// sqlZeroCasUnguarded: with the CFG restricted to "expected CAS == 0 was supplied", which
+// UPDATE statement texts can still reach the site without a conjunct cas = <expected> and
+// without a guard that admits only rows without a body? (INSERTs are governed by R-INSERT-GUARD.)
+func (m *Model) sqlZeroCasUnguarded(s *SQLSite, K *ssa.Function, c0 *cut, isP func(ssa.Value) bool) []string {
+	if len(c0.edges) == 0 && len(c0.triples) == 0 {
+		return nil // the closure never distinguishes the zero CAS: nothing to assume
+	}
+	args := s.Call.Common().Args
+	q := args[1]
+	if s.Call.Common().IsInvoke() {
+		q = args[0]
+	}
+	reach := entryReach(K, c0)
+	if !reach[s.Call.Block().Index] {
+		return nil
+	}
+	ev := newStrEval(m)
+	ev.liveEdge = func(pred, blk *ssa.BasicBlock, fr *frame) bool {
+		if fr.caller != nil || fr.fn != K {
+			return true
+		}
+		if !reach[pred.Index] || c0.edges[edge{pred.Index, blk.Index}] {
+			return false
+		}
+		if phi, _ := phiIf(pred); phi != nil {
+			live := false
+			for i, pp := range pred.Preds {
+				if !reach[pp.Index] || c0.edges[edge{pp.Index, pred.Index}] || c0.triples[[3]int{pp.Index, pred.Index, blk.Index}] {
+					continue
+				}
+				if forced, ok := constBoolOutcome(pred, i); ok && forced != blk {
+					continue
+				}
+				live = true
+			}
+			return live
+		}
+		return true
+	}
+	texts, ok := ev.eval(q, topFrame(K))
+	if !ok {
+		return nil
+	}
+	var out []string
+	for _, t := range texts {
+		st, err := sqlp.Parse(t)
+		if err != nil || st.Kind != sqlp.SUpdate {
+			continue
+		}
+		w := writeInfo(st)
+		if w == nil {
+			continue
+		}
+		guarded := false
+		for _, cj := range w.Where {
+			if p := colEqParam(cj, "cas"); p != nil {
+				if b, ok := s.bindingFor(p); ok && isP(b.V) {
+					guarded = true
+				}
+			}
+			if noBodyTest(cj) {
+				guarded = true
+			}
+		}
+		if !guarded {
+			out = append(out, st.Shape())
+		}
+	}
+	return uniq(out)
 }
